@@ -79,8 +79,10 @@ ASSUMPTIONS = [
 HORIZONS = {"progress_horizon_virtual_s": 300, "settle_cap_virtual_s": 4000}
 TIERS = {"quick": {"cases": 640, "batch": 10, "case_timeout": 120},
          "thorough": {"cases": 12000, "batch": 50, "case_timeout": 120}}
-MIN_EVALS = {"quick": {"idle_or_broken": 1500, "delivery": 600, "retry_or_report": 100, "save_requested": 150},
-             "thorough": {"idle_or_broken": 40000, "delivery": 20000, "retry_or_report": 2500, "save_requested": 3000}}
+MIN_EVALS = {"quick": {"idle_or_broken": 1500, "delivery": 600, "retry_or_report": 100, "save_requested": 150,
+                       "saved_delivered": 300},
+             "thorough": {"idle_or_broken": 40000, "delivery": 20000, "retry_or_report": 2500, "save_requested": 3000,
+                          "saved_delivered": 5000}}
 SHRINK_KEYS = ["ops"]
 
 
